@@ -324,6 +324,70 @@ func sanitize(s string) string {
 	}, s)
 }
 
+type shardCrash struct {
+	k   int
+	out string
+}
+
+// isLibraryCrash: the output of a dead worker shows a Go runtime "fatal error:" or an
+// unrecovered "panic:", and the innermost frame of the crashing goroutine that is not
+// the runtime's or package sync's belongs to the library under test.
+func isLibraryCrash(out string) bool {
+	i := strings.Index(out, "fatal error:")
+	if i < 0 {
+		i = strings.Index(out, "\npanic:")
+	}
+	if i < 0 {
+		return false
+	}
+	rest := out[i:]
+	j := strings.Index(rest, "goroutine ")
+	if j < 0 {
+		return false
+	}
+	for _, line := range strings.Split(rest[j:], "\n")[1:] {
+		if line == "" {
+			break // end of the first goroutine's stack
+		}
+		if strings.HasPrefix(line, "\t") {
+			continue
+		}
+		switch {
+		case strings.HasPrefix(line, "runtime."), strings.HasPrefix(line, "sync."), strings.HasPrefix(line, "sync/"), strings.HasPrefix(line, "internal/"), strings.HasPrefix(line, "panic("):
+			continue
+		}
+		return strings.HasPrefix(line, "github.com/jub0bs/cors")
+	}
+	return false
+}
+
+// replayCrash re-runs a worker's deterministic run sequence in a child process.
+func replayCrash(rf ReplayFile, path string) int {
+	self, _ := os.Executable()
+	tmp, err := os.MkdirTemp(scratchBase(), "simcheck-replay-")
+	if err != nil {
+		fatal2("%v", err)
+	}
+	defer os.RemoveAll(tmp)
+	sp := rf.ShardPrefix
+	cmd := exec.Command(self, "shard", rf.Property, sp.Tier, fmt.Sprint(rf.Seed), fmt.Sprint(sp.K), fmt.Sprint(sp.N), fmt.Sprint(rf.Run),
+		fmt.Sprint(time.Now().Add(30*time.Minute).UnixNano()), filepath.Join(tmp, "part.json"))
+	var out bytes.Buffer
+	cmd.Stdout, cmd.Stderr = &out, &out
+	err = cmd.Run()
+	switch {
+	case err != nil && isLibraryCrash(out.String()):
+		fmt.Printf("REPLAY property=%s class=fatal-runtime-error: worker %d/%d crashed again: %s\n", rf.Property, sp.K, sp.N, strings.SplitN(out.String()[strings.Index(out.String(), "fatal error:")+0:], "\n", 2)[0])
+		fmt.Printf("VIOLATION property=%s replay=%s\n", rf.Property, path)
+		return 1
+	case err == nil:
+		fmt.Printf("REPLAY property=%s: the worker no longer crashes\n", rf.Property)
+		return 0
+	}
+	fmt.Printf("REPLAY-DIVERGED property=%s: the worker failed differently: %v\n%s\n", rf.Property, err, out.String())
+	return 2
+}
+
 // replay executes a replay file in this (fresh) process. Exit status: 1 and a
 // VIOLATION line if the same class and event-log hash recur, 0 if the plan no
 // longer violates, 2 if it violates differently than recorded.
@@ -339,6 +403,9 @@ func replay(path string, quiet bool) int {
 	e, ok := engines[rf.Property]
 	if !ok {
 		fatal2("no engine for %s in this binary", rf.Property)
+	}
+	if rf.Class == "fatal-runtime-error" && rf.ShardPrefix != nil {
+		return replayCrash(rf, path)
 	}
 	plan, err := e.Decode(rf.Plan)
 	if err != nil {
@@ -574,6 +641,7 @@ func runCheck(e Engine, tier string, seed uint64, workers int, runsOverride int,
 	}
 	deadline := start.Add(wall)
 	var parts []*shardResult
+	var crashed []shardCrash
 	if inproc || workers <= 1 {
 		parts = append(parts, runShard(e, tier, seed, 0, 1, total, deadline))
 	} else {
@@ -599,6 +667,14 @@ func runCheck(e Engine, tier string, seed uint64, workers int, runsOverride int,
 		wg.Wait()
 		for k := 0; k < workers; k++ {
 			if errs[k] != nil {
+				// an unrecoverable runtime error (fatal error: ..., or a panic outside any recover)
+				// whose innermost non-runtime frame is the library's takes the whole worker
+				// down: that IS a violation (the sequential code never crashes), replayed by
+				// re-running this worker's deterministic run sequence
+				if out := outs[k].String(); isLibraryCrash(out) {
+					crashed = append(crashed, shardCrash{k, out})
+					continue
+				}
 				fatal2("shard %d failed: %v\n%s", k, errs[k], outs[k].String())
 			}
 			parts = append(parts, readPartial(filepath.Join(tmp, fmt.Sprintf("part%d.json", k))))
@@ -715,6 +791,29 @@ func runCheck(e Engine, tier string, seed uint64, workers int, runsOverride int,
 	for _, v := range confirmed {
 		fmt.Printf("  class=%s key=%s run=%d: %s\n", v.Class, v.Key, v.Run, v.Detail)
 		fmt.Printf("VIOLATION property=%s replay=%s\n", e.ID(), v.Replay)
+		status = 1
+	}
+	for _, cr := range crashed {
+		detail := cr.out
+		if i := strings.Index(detail, "fatal error:"); i >= 0 {
+			detail = detail[i:]
+		} else if i := strings.Index(detail, "panic:"); i >= 0 {
+			detail = detail[i:]
+		}
+		if len(detail) > 6000 {
+			detail = detail[:6000]
+		}
+		head, diff := repoState()
+		rf := ReplayFile{Property: e.ID(), Seed: seed, Run: uint64(total), Class: "fatal-runtime-error", Key: "worker", Detail: detail, RepoHead: head, RepoDiff: diff,
+			ShardPrefix: &shardPrefix{Tier: tier, K: cr.k, N: workers}}
+		b, _ := json.MarshalIndent(rf, "", " ")
+		dir := filepath.Join(envOr("VERIF_REPLAY_DIR", filepath.Join(verifDir(), "replays")), e.ID())
+		os.MkdirAll(dir, 0o755)
+		path := filepath.Join(dir, fmt.Sprintf("%d-worker%d-fatal-runtime-error.json", seed, cr.k))
+		os.WriteFile(path, b, 0o644)
+		first := strings.SplitN(detail, "\n", 2)[0]
+		fmt.Printf("  class=fatal-runtime-error key=worker%d: the library brought the process down under a schedule/history of worker %d/%d: %s\n", cr.k, cr.k, workers, first)
+		fmt.Printf("VIOLATION property=%s replay=%s\n", e.ID(), path)
 		status = 1
 	}
 	if status == 0 && len(unreached) > 0 {
